@@ -4,6 +4,7 @@ import HedVerif.Driver.Closed
 import HedVerif.Model.Bids
 import HedVerif.Model.BidsV
 import HedVerif.Model.ClosedDataset
+import HedVerif.Model.ClosedDatasetRaw
 open Lean
 namespace HedVerif.Driver.C16
 open HedVerif HedVerif.Driver HedVerif.Bids
@@ -101,28 +102,30 @@ def dissueClosedJson : DIssue → Json
   | .sidecar f i => jarr [Json.str (pathStr f), Json.str "sidecar", C08.issueJson i]
   | .table f i => jarr [Json.str (pathStr f), Json.str "table", tissueJson i]
 
-/-- a frame the harness did not supply: one visible marker issue -/
-def missingFrame : Tabular.Cfg × List Tabular.Row := (stubCfg [⟨"FRAME-MISSING".toList, 1⟩], [])
-
-/-- `c16.closed`: schema environment of `c01.run` + `trees`, each `dir` + `excluded`, `types`, `cfw` + `frames`
-(`[[path components], c07-request]` per events file, built by the real `TabularInput` from the file and the sidecar
-this model merged).  Answer: the `HedFileError` code, or per participating object (sidecars first, discovery order)
-`unmodelled` / `raise` / `issues` (warnings included), and — when nothing is unmodelled — `all` =
-`validateDatasetClosed` (filtered by `cfw`). -/
+/-- `c16.closed`: schema environment of `c01.run` + `trees`, each `dir` + `excluded`, `types`, `cfw`, the two variant
+flags of the file layer and `tables` (`[[path components], header, rows]`: the raw cells of every `.tsv` file).
+Nothing comes from the real `TabularInput`: the per-file step is `Tabular.validateClosedRaw` on the file's cells and
+the sidecar merged by the model.  Answer: the `HedFileError` code, or per participating object (sidecars first,
+discovery order) `unmodelled` / `raise` / `exc` / `issues` (warnings included), and — when nothing is unmodelled —
+`all` = `validateDatasetClosedRaw` (filtered by `cfw`). -/
 def closedJson (env : Validate.Env) (j : Json) : Except String Json := do
   let D ← dirOf (← getVal j "dir")
   let excl ← (← getArr j "excluded").mapM asStr
   let types ← (← getArr j "types").mapM asStr
   let cfw := getBoolD j "cfw" false
-  let frames ← (← getArr j "frames").mapM fun e => match e with
-    | Json.arr #[p, rq] => do
-        pure ((← (← asArr p).mapM asStr), (← C07.cfgOf rq), (← (← getArr rq "rows").mapM C07.rowOf))
-    | _ => .error "frames entries must be [path, request]"
-  let kB := Closed.kBanned
-  let F : Frames := fun d _ => match frames.find? (·.1 == d.path) with
-    | some (_, cfg, T) => (cfg, T)
-    | none => missingFrame
-  match loadAll D.listing excl types with
+  let k ← Closed.rawConsts j
+  let tabs ← (← getArr j "tables").mapM fun e => match e with
+    | Json.arr #[p, h, rs] => do
+        pure ((← (← asArr p).mapM asStr),
+              (⟨← (← asArr h).mapM asStr, ← (← asArr rs).mapM fun r => do (← asArr r).mapM asStr⟩ : Assemble.Table))
+    | _ => .error "tables entries must be [path, header, rows]"
+  -- the dataset: every file with its content (JSON of the listing, cells of the tables)
+  let raw : RawTree := D.listing.map fun f => match tabs.find? (·.1 == f.1) with
+    | some (_, tb) => (f.1, Content.tsv tb)
+    | none => (f.1, Content.json f.2)
+  let kB := k.kBanned
+  let F := rawFrames k raw.table
+  match loadAll raw.listing excl types with
   | .error e => pure <| jobj [("error", Json.str (errName e))]
   | .ok gs =>
     let sideJson (g : Group SJson) (s : PFile SJson) : Json × Bool :=
@@ -136,18 +139,25 @@ def closedJson (env : Validate.Env) (j : Json) : Except String Json := do
         | .error e => (jobj (head ++ [("raise", Json.str (C08.exnName e))]), false)
     let tabJson (g : Group SJson) (d : PFile SJson) : Json × Bool :=
       let head := [("path", Json.str (pathStr d.path)), ("kind", Json.str "table")]
-      let (cfg, T) := F d (sidecarOf g d)
-      match (HedVerif.Closed.consulted cfg T).find? (HedVerif.Closed.textUnmodelled env) with
-      | some t => (jobj (head ++ [("unmodelled", jstr t)]), true)
-      | none =>
-        if T.any (HedVerif.Closed.rowSplit env kB cfg) then
-          (jobj (head ++ [("unmodelled", Json.str "malformed cell in a checked row")]), true)
-        else match tableClosed env kB F g d with
-          | .ok is => (jobj (head ++ [("issues", jarr (is.map tissueJson))]), false)
-          | .error e => (jobj (head ++ [("raise", Json.str (C07.excName e))]), false)
+      let sc := toJs ((sidecarOf g d).getD [])
+      let t := raw.table d.path
+      let skip (w : String) : Json × Bool := (jobj (head ++ [("unmodelled", Json.str w)]), true)
+      if !Raw.headerOk t.header then skip "header"
+      else if Raw.declaresDefinition sc then skip "definition in the sidecar"
+      else if Raw.onsetUnmodelled t then skip "onset spelling"
+      else if Raw.refOrderMatters sc t then skip "reference set order"
+      else
+        let (cfg, T) := F d (sidecarOf g d)
+        match (HedVerif.Closed.consulted cfg T).find? (HedVerif.Closed.textUnmodelled env) with
+        | some x => skip (if HedVerif.Closed.hasDelay x then "Delay group" else "string outside Validate")
+        | none =>
+          if T.any (HedVerif.Closed.rowSplit env kB cfg) then skip "malformed cell in a checked row"
+          else match tableClosed env kB F g d with     -- = `Tabular.validateClosedRaw` (`C16.raw_table_step`)
+            | .ok is => (jobj (head ++ [("issues", jarr (is.map tissueJson))]), false)
+            | .error e => (jobj (head ++ [("raise", Json.str (C07.excName e))]), false)
     let per := gs.flatMap fun g => g.sidecars.map (sideJson g) ++ g.datafiles.map (tabJson g)
     let all := if per.any (·.2) then Json.null else
-      match validateDatasetClosed env kB F D.listing excl types cfw with
+      match validateDatasetClosedRaw env k raw excl types cfw with
       | .ok l => jarr (l.map dissueClosedJson)
       | .error e => Json.str (runExnName e)
     pure <| jobj [("files", jarr (per.map (·.1))), ("all", all)]
